@@ -83,16 +83,21 @@ class SubCheck(object):
 _IN_HYPOTHESIS = [False]
 
 
+_MARGINS = {}
+
+
 def target(value, label):
-    """hypothesis.target() that is a no-op in replay / enumeration mode."""
-    if _IN_HYPOTHESIS[0]:
-        try:
-            import hypothesis
-            v = float(value)
-            if v == v and abs(v) != float("inf"):
-                hypothesis.target(v, label=label)
-        except Exception:
-            pass
+    """Record the margin of a numeric predicate (worst value seen per label, reported in the evidence).
+    hypothesis.target()/Phase.target is deliberately not used: with hypothesis 6.168 its hill-climbing optimiser
+    (optimiser.hill_climb -> find_integer over simulated float draws) was observed to spin for >15 minutes without
+    executing a single new example, which would make a check hang on an unchanged tree."""
+    try:
+        v = float(value)
+    except Exception:
+        return
+    if v == v and abs(v) != float("inf"):
+        if v > _MARGINS.get(label, float("-inf")):
+            _MARGINS[label] = v
 
 
 def require(cond, predicate, message, detail=None):
@@ -222,6 +227,7 @@ def run_task(args):
     except Exception as e:  # anything else escaping is a harness error
         out["harness_error"] = _short("".join(traceback.format_exception(type(e), e, e.__traceback__)))
     out["wall"] = time.time() - t0
+    out["margins"] = dict(_MARGINS)
     out["nontrivial_hashes"] = sorted(out["nontrivial_hashes"])
     out["failures"] = [f.to_json() for f in out["failures"]]
     return out
@@ -307,7 +313,7 @@ def _run_sub(mod, sub, tier, seed, shard, shrink_budget, known, out):
                         report_multiple_bugs=False, print_blob=False,
                         suppress_health_check=[HealthCheck.too_slow, HealthCheck.data_too_large,
                                                HealthCheck.large_base_example],
-                        phases=[Phase.explicit, Phase.generate, Phase.target, Phase.shrink])(test)
+                        phases=[Phase.explicit, Phase.generate, Phase.shrink])(test)   # Phase.target is NOT used: see target() above
         _IN_HYPOTHESIS[0] = True
         try:
             test()
@@ -444,9 +450,25 @@ def main(argv=None):
             results.append(run_task(t))
     else:
         ctx = multiprocessing.get_context("spawn")
-        with concurrent.futures.ProcessPoolExecutor(max_workers=jobs, mp_context=ctx) as ex:
-            for r in ex.map(run_task, tasks):
-                results.append(r)
+        limit = float(os.environ.get("VERIF_TIMEOUT", "1500" if a.tier == "quick" else "10800"))
+        ex = concurrent.futures.ProcessPoolExecutor(max_workers=jobs, mp_context=ctx)
+        futs = [ex.submit(run_task, t) for t in tasks]
+        done, pending = concurrent.futures.wait(futs, timeout=limit)
+        for fu, t in zip(futs, tasks):
+            if fu in done:
+                try:
+                    results.append(fu.result())
+                except Exception as e:      # worker died
+                    harness_errors.append("%s[%d]: worker failed: %r" % (t[1], t[4], e))
+            else:
+                harness_errors.append("%s[%d]: no result within the %.0f s watchdog (inconclusive, not a violation)" % (t[1], t[4], limit))
+        if pending:
+            for pr in list(getattr(ex, "_processes", {}).values()):
+                try:
+                    pr.kill()
+                except Exception:
+                    pass
+        ex.shutdown(wait=not pending, cancel_futures=True)
 
     # ------------------------------------------------------------------ merge
     evaluations = 0
@@ -456,6 +478,7 @@ def main(argv=None):
     suppressed = collections.Counter()
     samples = []
     per_sub = collections.OrderedDict()
+    margins = {}
     exhaustive_subs = []
     seen_buckets = collections.OrderedDict()
     for r in results:
@@ -468,6 +491,8 @@ def main(argv=None):
         skipped.update({"%s/%s" % (r["sub"], k): v for k, v in r["skipped"].items()})
         suppressed.update(r["suppressed"])
         known_hits.update(r["known"])
+        for mk, mv in r.get("margins", {}).items():
+            margins[mk] = max(mv, margins.get(mk, float("-inf")))
         ps = per_sub.setdefault(r["sub"], dict(evaluations=0, distinct_nontrivial=0, wall_s=0.0, shards=0))
         ps["evaluations"] += r["evaluations"]
         ps["wall_s"] = round(max(ps["wall_s"], r["wall"]), 2)
@@ -529,6 +554,7 @@ def main(argv=None):
             per_subcheck=per_sub,
             labels=dict(sorted(labels.items())),
             skipped_inadmissible=dict(skipped),
+            worst_observed_margins=margins,
             regress_replayed=n_regress,
             excluded_known_findings=dict(known_hits),
             excluded_after_first_failure=dict(suppressed),
